@@ -14,7 +14,8 @@ from sa.model import AnalysisError, walk_no_nested, norm, call_name, mangle, Fun
 from sa.util import module_resolver, self_calls, const_value, bound_arg
 from sa.consteval import TOP, Evaluator
 from .roles import ClientRoles
-from .c10 import authenticator, mechanisms, sender_sites, selection_feeders, selection_slice
+from .c10 import (authenticator, mechanisms, sender_sites, selection_feeders, selection_slice, selection_timing, tls_method,
+                  connect_method, capability_reader)
 from ref import ms_spec
 
 
@@ -80,6 +81,18 @@ def run(ctx):
             raise AnalysisError("U3", "candidate helper %s: unexpected signature" % feeder[1].qualname)
         feeder_param = hp[0]
         ctx.holds("U3", "the candidates handed to %s are computed by %s(%s)" % (auth.qualname, feeder[1].qualname, feeder_param))
+    # ... and it computes them from what the server announces NOW: after the TLS upgrade, when there is one
+    try:
+        tls_ = tls_method(R, "U3")
+        conn_ = connect_method(R, "U3")
+        _cr, cap_attr_ = capability_reader(R, conn_)
+        _live, early_ = selection_timing(R, auth, tls_, cap_attr_)
+    except AnalysisError:
+        early_ = []
+    for fn_, what_, node_ in early_:
+        ctx.violation("U3", fn_, "selection-before-upgrade", "%s computes the usable mechanisms before the TLS upgrade: the mechanism is chosen "
+                      "among those announced in clear, not among those the server announces on the secured connection" % what_, node=node_,
+                      witness="pre-TLS announcement LOGIN, post-TLS announcement PLAIN: the client tries LOGIN")
     universe = list(ms_spec.SUPPORTED_MECHS) + ["CRAM-MD5"]
     server_sets = []
     for r in range(len(universe) + 1):
